@@ -4,8 +4,8 @@ CONSTANTS
   Unit = 10
   MaxU = 2147483647
   MaxS = 2147483647
-  Values = {0, 1, 2, 3, 5, 9, 17, 40, 123}
-  Sizes = {0, 1, 7, 10, 33, 50, 99}
+  Values = {0, 1, 2, 5, 9, 17, 123}
+  Sizes = {0, 1, 7, 33, 50, 99}
   PricesSet = {1, 3, 11}
   Adj = 10
 INVARIANTS InvBackedOnce InvBackedEach InvBracket
